@@ -63,6 +63,15 @@ Inductive obs :=
 
 Definition err_class (e : err) : N := match e with EEof => 0 | EUEof => 1 | _ => 2 end.
 
+Definition chk_decode_from (base : Z) (bytes : list N) (maxArr : Z) (o : obs) : bool :=
+  match decode_from base bytes maxArr, o with
+  | DOk d _, OOk ver kv ts toff e =>
+    (d_version d =? ver) && eqb_kvmap (d_kv d) kv && eqb_tinfos (d_tensors d) ts && (d_toff d =? toff) && (d_end d =? e)%Z
+  | DErr e _, OErr c => err_class e =? c
+  | DPanic _ _, OPanic => true
+  | _, _ => false
+  end.
+
 Definition chk_decode (bytes : list N) (maxArr : Z) (o : obs) : bool :=
   match decode bytes maxArr, o with
   | DOk d _, OOk ver kv ts toff e =>
@@ -125,6 +134,14 @@ Definition chk_accs (m : kvs) (a : accs) : bool :=
   eqb_str (acc_architecture m) (a_arch a) && eqb_str (acc_kind m) (a_kind a) && (acc_file_type m =? a_ftype a) &&
   eqb_str (acc_chat_template m) (a_tmpl a) &&
   match kv_get k_param_count m with Some (VNum 10 x) => x =? a_params a | _ => false end.
+
+Definition chk_decode10_from (base : Z) (bytes : list N) (maxArr : Z) (o : obs) (real : N) (a : option accs) : bool :=
+  chk_decode_from base bytes maxArr o && meter_covers (d_alloc (decode_from base bytes maxArr)) real &&
+  match decode_from base bytes maxArr, a with
+  | DOk d _, Some a => chk_accs (d_kv d) a
+  | DOk _ _, None => false
+  | _, _ => true
+  end.
 
 Definition chk_decode10 (bytes : list N) (maxArr : Z) (o : obs) (real : N) (a : option accs) : bool :=
   chk_decode bytes maxArr o && meter_covers (d_alloc (decode bytes maxArr)) real &&
